@@ -282,3 +282,35 @@ V('C16', 'legacy-sigops-outputs-only', CORE, "    for txin in tx.vin:\n        n
 V('C16', 'legacy-mode-decodes-op-n', SCRIPT, 'if fAccurate and (OP_1 <= lastOpcode <= OP_16):', 'if OP_1 <= lastOpcode <= OP_16:', 'C16.S1', scope='CScript.GetSigOpCount')
 V('C16', 'size-measured-with-witness', CORE, 'base_tx = CTransaction(tx.vin, tx.vout, tx.nLockTime, tx.nVersion)', 'base_tx = tx', 'C16.T1', scope='CheckTransaction')
 V('C16', 'commitment-compared-with-root-only', CORE, 'if commit != Hash(root + nonce):', 'if commit != Hash(root):', 'C16.B1', scope='CheckBlock')
+
+# ------------------------------------------------------------------------------------------------ C17
+V('C17', 'revert-F10-sign-bit', CORE, "    if nBits & 0x00800000:\n        raise CheckProofOfWorkError(\"CheckProofOfWork() : nBits negative\")\n", "", 'C17.R1', scope='CheckProofOfWork')
+V('C17', 'hash-equal-rejected', CORE, 'if hash > target:', 'if hash >= target:', 'C17.R1', scope='CheckProofOfWork')
+V('C17', 'regtest-limit', CORE, 'PROOF_OF_WORK_LIMIT = 2**256-1 >> 1', 'PROOF_OF_WORK_LIMIT = 2**256-1 >> 2', 'C17.C1')
+V('C17', 'hash-big-endian', SER, 't = struct.unpack(b"<IIIIIIII", s[:32])', 't = struct.unpack(b">IIIIIIII", s[:32])', 'C17.L1', scope='uint256_from_str')
+V('C17', 'zero-target-accepted', CORE, 'if not (0 < target <= coreparams.PROOF_OF_WORK_LIMIT):', 'if not (0 <= target <= coreparams.PROOF_OF_WORK_LIMIT):', 'C17.R1', scope='CheckProofOfWork')
+V('C17', 'limb-shift', SER, 'r += t[i] << (i * 32)', 'r += t[i] << (i * 16)', 'C17.L1', scope='uint256_from_str')
+V('C17', 'decode-mask-23-bits', SER, 'v = (c & 0xFFFFFF) << (8 * (nbytes - 3))', 'v = (c & 0x7FFFFF) << (8 * (nbytes - 4))', 'C17.F1', scope='uint256_from_compact')
+V('C17', 'decode-threshold', SER, "    nbytes = (c >> 24) & 0xFF\n    if nbytes <= 3:", "    nbytes = (c >> 24) & 0xFF\n    if nbytes <= 2:", 'C17.F1', scope='uint256_from_compact')
+V('C17', 'encode-no-renormalisation', SER, "    if compact & 0x00800000:\n        compact >>= 8\n        nbytes += 1\n", "", 'C17.F2', scope='compact_from_uint256')
+V('C17', 'encode-renormalisation-keeps-exponent', SER, "        compact >>= 8\n        nbytes += 1\n", "        compact >>= 8\n", 'C17.F2', scope='compact_from_uint256')
+V('C17', 'encode-size-rounds-down', SER, 'nbytes = (v.bit_length() + 7) >> 3', 'nbytes = v.bit_length() >> 3', 'C17.F2', scope='compact_from_uint256')
+V('C17', 'decode-wraps', SER, "        v = (c & 0xFFFFFF) << (8 * (nbytes - 3))\n    return v", "        v = (c & 0xFFFFFF) << (8 * (nbytes - 3))\n    return v & (2**256 - 1)", 'C17.F1', scope='uint256_from_compact')
+V('C17', 'pow-error-not-validation', CORE, 'class CheckProofOfWorkError(CheckBlockHeaderError):', 'class CheckProofOfWorkError(Exception):', 'C17.R1')
+V('C17', 'limit-default-argument', CORE, "def CheckProofOfWork(hash, nBits):", "def CheckProofOfWork(hash, nBits, limit=coreparams.PROOF_OF_WORK_LIMIT):", 'C17.P1')
+
+# ------------------------------------------------------------------------------------------------ C15
+V('C15', 'weight-four-times-stripped', CORE, 'return len(stripped.serialize()) * 3 + len(self.serialize())', 'return len(stripped.serialize()) * 4 + len(self.serialize())', 'C15.W1', scope='CTransaction.calc_weight')
+V('C15', 'witness-tree-from-txids', CORE, 'hashes.append(tx.GetHash())', 'hashes.append(tx.GetTxid())', 'C15.M1', scope='CBlock.build_witness_merkle_tree_from_txs')
+V('C15', 'coinbase-entry-not-zeroed', CORE, "        hashes[0] = b'\\x00' * 32\n", "", 'C15.M1', scope='CBlock.build_witness_merkle_tree_from_txs')
+V('C15', 'pair-clamp-hoisted', CORE, "        size = len(txids)\n        j = 0\n        while size > 1:\n            for i in range(0, size, 2):\n                i2 = min(i+1, size-1)", "        size = len(txids)\n        last = size - 1\n        j = 0\n        while size > 1:\n            for i in range(0, size, 2):\n                i2 = min(i+1, last)", 'C15.M2', scope='CBlock.build_merkle_tree_from_txids')
+V('C15', 'pair-without-clamp', CORE, 'i2 = min(i+1, size-1)', 'i2 = min(i+1, size)', 'C15.M2', scope='CBlock.build_merkle_tree_from_txids')
+V('C15', 'halving-rounds-down', CORE, 'size = (size + 1) // 2', 'size = size // 2', 'C15.M2', scope='CBlock.build_merkle_tree_from_txids')
+V('C15', 'offset-after-halving', CORE, "            j += size\n            size = (size + 1) // 2", "            size = (size + 1) // 2\n            j += size", 'C15.M2', scope='CBlock.build_merkle_tree_from_txids')
+V('C15', 'block-weight-full-times-four', CORE, "return len(self.serialize(dict(include_witness=False))) * 3 + len(self.serialize())", "return len(self.serialize()) * 4", 'C15.W1', scope='CBlock.GetWeight')
+V('C15', 'ctor-accepts-any-root', CORE, "            elif hashMerkleRoot != vMerkleTree[-1]:\n                raise CheckBlockError(\"CBlock : hashMerkleRoot is not compatible with vtx\")\n", "", 'C15.B1', scope='CBlock.__init__')
+V('C15', 'ctor-zero-root-not-filled', CORE, "            if hashMerkleRoot == b'\\x00'*32:\n                hashMerkleRoot = vMerkleTree[-1]\n            elif hashMerkleRoot != vMerkleTree[-1]:", "            if hashMerkleRoot == b'\\x00'*32:\n                pass\n            elif hashMerkleRoot != vMerkleTree[-1]:", 'C15.B1', scope='CBlock.__init__')
+V('C15', 'merkle-leaves-wtxid', CORE, 'txids = [tx.GetTxid() for tx in txs]', 'txids = [tx.GetHash() for tx in txs]', 'C15.M1', scope='CBlock.build_merkle_tree_from_txs')
+V('C15', 'nowitness-raised-when-any', CORE, "        if not has_witness:\n            raise NoWitnessData", "        if has_witness:\n            raise NoWitnessData", 'C15.M1', scope='CBlock.build_witness_merkle_tree_from_txs')
+V('C15', 'weight-null-shortcut-without-guard', CORE, "        if self.wit.is_null():\n            return len(self.serialize()) * 4\n        else:\n            stripped = CTransaction(self.vin, self.vout, self.nLockTime, self.nVersion)\n            return len(stripped.serialize()) * 3 + len(self.serialize())", "        return len(self.serialize()) * 4", 'C15.W1', scope='CTransaction.calc_weight')
+V('C15', 'block-transactions-keep-witness-when-stripped', CORE, 'VectorSerializer.stream_serialize(CTransaction, self.vtx, f, dict(include_witness=include_witness))', 'VectorSerializer.stream_serialize(CTransaction, self.vtx, f)', 'C15.W1', scope='CBlock.stream_serialize')
